@@ -5,8 +5,7 @@ package outbound
 // control/connectivity.go turns into the kernel connectivity bit) is 0 exactly
 // when a latency-policy group has no alive node of that type; a reload
 // (CaptureReloadSelectionFallback -> RestoreHealthSnapshot(ReloadHealthSnapshot)
-// -> EnsureReloadSelectionFloor, in the order of
-// ControlPlane.InheritDialerHealthFrom) hands the last known state to the new
+// -> EnsureReloadSelectionFloor) hands the last known state to the new
 // generation and leaves every group at least one selectable node per type.
 //
 // Driven through the exported API only (this is not package dialer): threshold
@@ -38,7 +37,6 @@ import (
 const (
 	c16GUnit = "C16.group"
 	c16GF1   = "F-C16-1" // revival without latency sample never re-announces the group alive
-	c16GF2   = "F-C16-2" // reload floor undone by a later group's restore of a shared node
 )
 
 var c16GDomNames = [6]string{"tcp4", "tcp6", "dnsudp4", "dnsudp6", "dataudp4", "dataudp6"}
@@ -130,7 +128,6 @@ type c16GH struct {
 	classes map[string]bool
 	nt      bool
 	knownF1 bool
-	knownF2 bool
 	// afterReload: verify() is looking at the state right after a reload.
 	afterReload bool
 }
@@ -404,12 +401,20 @@ func (h *c16GH) evReload() {
 	oldAlive := make([][6]bool, h.nn)
 	copy(oldAlive, h.alive)
 	newNodes, newGroups := h.build()
+	// capture every fallback, restore every grouped node, then give every group its
+	// floor. (ControlPlane.InheritDialerHealthFrom interleaves these per group; its
+	// exact order is exercised - through the real function - by the conn unit.)
+	fbs := make([]ReloadSelectionFallback, len(newGroups))
+	for i, g := range newGroups {
+		fbs[i] = g.g.CaptureReloadSelectionFallback()
+	}
 	for _, g := range newGroups {
-		fb := g.g.CaptureReloadSelectionFallback()
 		for _, n := range g.cfg.members {
 			newNodes[n].RestoreHealthSnapshot(oldNodes[n].ReloadHealthSnapshot())
 		}
-		g.g.EnsureReloadSelectionFloor(fb)
+	}
+	for i, g := range newGroups {
+		g.g.EnsureReloadSelectionFloor(fbs[i])
 	}
 	h.nodes, h.groups = newNodes, newGroups
 	h.closeGen(oldNodes, oldGroups)
@@ -510,13 +515,6 @@ func (h *c16GH) evReload() {
 				h.class("selectable_only_as_single_node_last_resort")
 				continue
 			}
-			// known finding F-C16-2: a node shared with a later group is restored
-			// again after this group's floor was applied.
-			if h.knownF2 && h.f2Shape(gi, dom, oldAlive) {
-				vkExcluded(c16GUnit, c16GF2)
-				h.class("known_f2_shape")
-				continue
-			}
 			h.failf("reload: group g%d (%s, members %v) has no selectable node for %s: %v", gi, g.cfg.policy.Policy, g.cfg.members, c16GDomNames[dom], err)
 		}
 	}
@@ -545,28 +543,12 @@ func oldCount(oldAlive [][6]bool, members []int, dom int) int {
 	return c
 }
 
-// f2Shape: group gi had no alive member for dom (and the other family) in the
-// old generation and shares a member with a later group.
-func (h *c16GH) f2Shape(gi, dom int, oldAlive [][6]bool) bool {
-	g := h.groups[gi]
-	for _, m := range g.cfg.members {
-		for gj := gi + 1; gj < len(h.groups); gj++ {
-			for _, x := range h.groups[gj].cfg.members {
-				if x == m {
-					return true
-				}
-			}
-		}
-	}
-	return false
-}
-
 func c16GCase(t *rapid.T) {
 	dialer.ResetGlobalProxyStateForReload()
 	log := logrus.New()
 	log.SetOutput(io.Discard)
 	log.SetLevel(logrus.ErrorLevel)
-	h := &c16GH{t: t, log: log, classes: map[string]bool{}, knownF1: vkKnown(c16GF1), knownF2: vkKnown(c16GF2)}
+	h := &c16GH{t: t, log: log, classes: map[string]bool{}, knownF1: vkKnown(c16GF1)}
 	h.nn = rapid.IntRange(1, 4).Draw(t, "nodes")
 	ng := rapid.IntRange(1, 4).Draw(t, "groups")
 	for g := 0; g < ng; g++ {
